@@ -21,6 +21,9 @@ __CPROVER_requires(search->dag->n_frames == ((fsg_search_t *)search)->frame)
 __CPROVER_assigns()
 __CPROVER_ensures(__CPROVER_return_value == search->dag)
 ;
+/* the multi-candidate branch of find_end_node is excluded by the harness (nobody ends in the last frame); symex does not
+ * prune it and body-less callees returning nondeterministic pointers made the formula explode: cut the branch here */
+int32 fsg_model_word_add(fsg_model_t *fsg, char const *word) { (void)fsg; (void)word; __CPROVER_assert(0, "multi-candidate branch is not reached in this harness"); __CPROVER_assume(0); return 0; }
 void h_fsg_search_lattice_cached(void) { search_module_t *s; fsg_search_lattice(s); VERIF_CANARY(); }
 #endif
 
@@ -75,5 +78,37 @@ void r_lattice_nodes(void)
         for (latlink_list_t *x = nodes[in_b]->entries; x && rc < 4; x = x->next) if (x->link == lk) rc++;
         SSW_ASSERT(rc == 1, "the reverse list holds the same link exactly once");
     }
+    VERIF_CANARY();
+}
+
+/* bounded: choice of the end node when no word ends in the last frame: the node (with entries) that exits last */
+void r_find_end_node(void)
+{
+    IN(int, in_n); IN_ARR(int, in_fef, NNODE); IN_ARR(int, in_lef, NNODE); IN_ARR(int, in_has, NNODE); IN(int, in_nframes);
+    static lattice_t dag; static listelem_alloc_t na, la, lla; static fsg_model_t fsg;
+    fsg_search_t *fsgsp = calloc(1, sizeof *fsgsp); SSW_ASSUME(fsgsp != NULL);
+#define fsgs (*fsgsp)
+    static char *vocab[4] = { "a", "b", "c", "d" }; static latlink_list_t dummy;
+    na.elemsize = sizeof(latnode_t); la.elemsize = sizeof(latlink_t); lla.elemsize = sizeof(latlink_list_t);
+    dag.latnode_alloc = &na; dag.latlink_alloc = &la; dag.latlink_list_alloc = &lla; dag.nodes = NULL; dag.n_nodes = 0;
+    fsg.vocab = vocab; fsg.n_word = 4; fsgs.fsg = &fsg;
+    SSW_ASSUME(1 <= in_n && in_n <= NNODE && 10 <= in_nframes && in_nframes <= 60);
+    dag.n_frames = in_nframes; fsgs.frame = in_nframes;
+    latnode_t *nodes[NNODE]; int best = -1, nlast = 0;
+    for (int i = 0; i < NNODE; i++) {
+        nodes[i] = NULL;
+        if (i < in_n) {
+            SSW_ASSUME(1 <= in_fef[i] && in_fef[i] <= in_lef[i] && in_lef[i] <= in_nframes - 2 && (in_has[i] == 0 || in_has[i] == 1));   /* nobody ends in the last frame */
+            for (int j = 0; j < i; j++) SSW_ASSUME(in_lef[i] != in_lef[j]);   /* no ties: the choice is then unique */
+            nodes[i] = new_node(&dag, &fsg, i, in_fef[i], i, 0, -5);
+            nodes[i]->fef = in_fef[i]; nodes[i]->lef = in_lef[i]; nodes[i]->entries = in_has[i] ? &dummy : NULL;
+            if (in_has[i] && (best < 0 || in_lef[i] > in_lef[best])) best = i;
+        }
+    }
+    (void)nlast;
+    latnode_t *e = find_end_node(fsgsp, &dag);
+#undef fsgs
+    SSW_ASSERT((e == NULL) == (best < 0), "an end node is found iff some node has entries");
+    SSW_ASSERT(best < 0 || e == nodes[best], "without a word ending in the last frame the end node is the one that exits last");
     VERIF_CANARY();
 }
